@@ -2,8 +2,9 @@
    On the current tree this is FALSE (finding F5): serve() gives up the receive lock and notifies before it dispatches,
    and a waiter that takes the free lock in that window blocks in poll() on a stream from which its reply is already gone.
    Both directions are machine-checked: the refutation with an explicit schedule, and the theorem that this window
-   (the waiter polling an empty stream, or sleeping behind a thread that does) is the ONLY way to be held up. *)
-From V Require Import lib.Base model.Serve proofs.ServeP proofs.ServeTie gen.Gen_serve.
+   (the waiter polling an empty stream, or sleeping behind a thread that is about to notify) is where a held-up waiter is found,
+   and (history) that a polling waiter got there straight from a readiness test made before the dispatch. *)
+From V Require Import lib.Base model.Serve proofs.ServeP proofs.ServeG proofs.ServeTie gen.Gen_serve.
 
 Fixpoint runl (s : st) (evs : list (label * nat)) : option st :=
   match evs with [] => Some s | (l, i) :: r => match step l i s with Some s' => runl s' r | None => None end end.
@@ -43,6 +44,30 @@ Theorem c14_only_this_window : forall servers s w q, reach (init servers) s ->
   (tpc (thrs s w) = S2 /\ inbox s = []) \/ (tpc (thrs s w) = Asleep /\ exists h, will_notify (tpc (thrs s h)) = true).
 Proof. intros servers s w q R. apply blocked_only_in_window; [exact (invA_reach _ _ R)|exact (invB_reach _ _ R)]. Qed.
 Print Assumptions c14_only_this_window.
+
+(* the window as HISTORY (proofs/ServeG.v: a ghost layer over the same transition system records, per thread, how many dispatches had
+   happened at its last readiness test and whether it has slept on the condition since): in every execution, a waiter that is past
+   its test - trying for the lock, holding it, polling - made that test when its reply had NOT been dispatched yet, and has not slept
+   since: it came straight from the test. So the held-up waiters of c14_only_this_window that poll are exactly those that tested just
+   before the dispatch; a thread that is woken from the condition goes back to the test first (with its reply processed it returns).
+   This is what the harness checks on the event trace of the real code before it files a lateness under the known finding. *)
+Theorem c14_window_entered_from_the_test : forall servers s g w q, greach (init servers) s g ->
+  myseq (thrs s w) = Some q -> past_test (tpc (thrs s w)) = true ->
+  ~ In q (firstn (tlen g w) (dispatched s)) /\ slept g w = false.
+Proof. exact window_entered_from_the_test. Qed.
+Print Assumptions c14_window_entered_from_the_test.
+Theorem c14_every_execution_has_its_ghost : forall servers s, reach (init servers) s -> exists g, greach (init servers) s g.
+Proof. intros servers s. apply reach_greach. Qed.
+Print Assumptions c14_every_execution_has_its_ghost.
+(* non-vacuity: along the refutation's schedule W (thread 0) ends polling with its reply dispatched; its last test saw 0 dispatches *)
+Fixpoint grunl (s : st) (g : ghost) (evs : list (label * nat)) : option (st * ghost) :=
+  match evs with [] => Some (s, g) | (l, i) :: r => match step l i s with Some s' => grunl s' (gupd l i s g) r | None => None end end.
+Example c14_window_sample :
+  match grunl (init (fun i => Nat.eqb i 1)) g_init stall_schedule with
+  | Some (s, g) => tpc (thrs s 0) = S2 /\ dispatched s = [0] /\ tlen g 0 = 0 /\ slept g 0 = false /\ ready s 0 = true
+  | None => False
+  end.
+Proof. vm_compute. repeat split. Qed.
 
 (* the generated program has the order the refutation uses: release, notify_all, then dispatch *)
 Theorem c14_program_is_current : Gen_serve.serve_prog = Serve.serve_prog.
